@@ -1170,9 +1170,18 @@ class _Influence:
 
     def reached(self, node_id):
         """roots of the conditions under which CFG node `node_id` is reached"""
-        cs = self.fa.conditions(node_id)
-        self.ck.need(cs is not None, "%s: too many paths" % self.fa.qual)
-        for c in cs:
+        self.reached_any([node_id])
+
+    def reached_any(self, node_ids):
+        """roots of the conditions under which one of the CFG nodes is reached"""
+        from ..fa import _prime_implicants
+        cs = set()
+        for i in node_ids:
+            c1 = self.fa.conditions(i)
+            self.ck.need(c1 is not None, "%s: too many paths" % self.fa.qual)
+            cs |= {frozenset(c) for c in c1}
+        node_id = node_ids[0]
+        for c in (_prime_implicants(cs) if len(node_ids) > 1 else cs):
             for lit in c:
                 if lit in self.must() or (lit[0], not lit[1]) in self.must():
                     continue
@@ -1265,14 +1274,26 @@ def check_option_alone(ck, R):
                 fa = _FA(ck, fi)
                 # the field(s) holding the option
                 for f in sorted(holders.get(opt, ())):
-                    inf = _Influence(ck, fa)
-                    for d in inf.defs.get("self." + f, ()):
+                    # per VALUE the field can be given: the places that assign the same value count as one (the same
+                    # assignment repeated in both arms of an unrelated branch does not depend on that branch)
+                    groups = {}
+                    for d in _Influence(ck, fa).defs.get("self." + f, ()):
+                        try:
+                            txt = fa.xnorm(d.value, d.node) if d.value is not None else "<%s>" % d.kind
+                        except AnalysisError:
+                            txt = A.norm(d.value)
+                        groups.setdefault(txt, []).append(d)
+                    for txt, ds in sorted(groups.items()):
                         one = _Influence(ck, fa)
-                        one.definition(d)
+                        one.reached_any([d.node for d in ds])
+                        for d in ds:
+                            one.seen.add((d.node, d.name))
+                            if d.value is not None:
+                                one.value(d.value, d.node)
                         n += 1
                         fo = _foreign(one.roots, allowed, doc, holders)
                         if fo and bad is None:
-                            bad = (fa, d.stmt if d.stmt is not None else None, d.node, "`self.%s`" % f, fo[0])
+                            bad = (fa, ds[0].stmt, ds[0].node, "`self.%s`" % f, fo[0])
                 # what is handed on to the base constructor for it
                 for c in fa.calls("__init__"):
                     if not (isinstance(A.call_recv(c), ast.Call) and A.call_attr(A.call_recv(c)) == "super") or not fa.nodes(c):
@@ -2762,9 +2783,12 @@ def check(ck):
           "is applied; with config path A and argument path=B the derived option still points at A" % (A.short(bad[0], 60), ", ".join(bad[1])[:60]), fsi.where())
     sbi = _FA(ck, "storage_base.StorageBackendBase.__init__")
     mc = [c for c in sbi.calls("MemoryCache")]
-    okm = len(mc) == 1 and len(mc[0].args) + len(mc[0].keywords) == 1 and \
-        "param:memory_cache_mb" in sbi.deps((mc[0].args + [k.value for k in mc[0].keywords])[0], sbi.nodes(mc[0])[0]) and \
-        sbi.xnorm((mc[0].args + [k.value for k in mc[0].keywords])[0], sbi.nodes(mc[0])[0]) == "memory_cache_mb"
+    def sized(c):
+        a = c.args + [k.value for k in c.keywords]
+        at = sbi.nodes(c)
+        return len(a) == 1 and bool(at) and "param:memory_cache_mb" in sbi.deps(a[0], at[0]) and sbi.xnorm(a[0], at[0]) == "memory_cache_mb"
+    # every place that creates the cache (one, or the same statement in several arms) sizes it by the option
+    okm = bool(mc) and all(sized(c) for c in mc)
     ck.ob(R1, sbi.key(None, "cache-size"), okm, "the cache is created with the configured size" if okm else "MemoryCache is not created with memory_cache_mb", sbi.where())
     # ---- R1 for cluster / repository / environment
     reads_of = {}
